@@ -16,7 +16,8 @@ LEVEL_TEXT = ("4 generated multi-line scripts and every comment-free, quote-free
               "an inserted comment, in source order."
               " Texts containing another comment marker are also used as TRAILING comments; two trailing comments on one line are judged as the single '--' comment they are."
               " Wave 2: a script without ';' terminators, texts with an unbalanced parenthesis, with '; drop ...; create ...' and with apostrophes."
-              ' Wave 5 texts: form feed, vertical tab, NEL and U+2028 inside the comment text, block-comment lines that begin with a skip word or a statement word; reported comment items are accepted in their unicode_escape form.')
+              ' Wave 5 texts: form feed, vertical tab, NEL and U+2028 inside the comment text, block-comment lines that begin with a skip word or a statement word; reported comment items are accepted in their unicode_escape form.'
+              ' Defect hunt: indented multi-line block comments (known finding), the words input.regex in a comment.')
 LEVEL_NOTE = ("Deviation bound: 1 inserted comment (2 in thorough). Texts containing another comment marker form a separate sub-alphabet "
               "(feature text:other-marker). Comment texts are quote-free, as the property says.")
 RULE = ("case = (script, comment style, text, position[, second comment]); expected entities = result of the script without comments; "
